@@ -551,6 +551,68 @@ class MakeProxyType(Unit):
                 ex.oblige(s, 'exit: does not raise', False)
 
 
+class AutoProxyUnit(Unit):
+    """AutoProxy(token, serializer, authkey, exposed, incref): builds ONE proxy of the class generated for (typeid, this object's exposed methods), for the given
+    token and serializer, with the caller's incref flag (RebuildProxy relies on it: C13) and marks it so that pickling it again rebuilds an AutoProxy with
+    the same method set."""
+    prop = 'C14'
+    file = F
+    qual = 'AutoProxy'
+    inlined_defs = ()
+    canaries = (('incref flag not passed to the proxy', 'proxy = ProxyType(token, serializer, authkey=authkey, incref=incref)', 'proxy = ProxyType(token, serializer, authkey=authkey)', ''),
+                ('method set not remembered for re-pickling', '    proxy._exposed_ = exposed', '    proxy._exposed_ = ()', ''))
+
+    def setup(self, ex):
+        st = St()
+        self.serializer, self.authkey, self.exposed = z3.Const('serializer', Val), z3.Const('authkey', Val), z3.Const('exposed', Val)
+        self.incref = z3.Bool('incref')
+        self.token = Rec(ex, 'token', immutable=True).init(st, address=z3.Const('address', Val), typeid=z3.String('typeid'))
+        st.env.update(token=self.token, serializer=self.serializer, authkey=self.authkey, exposed=self.exposed, incref=self.incref)
+        st.assume(self.exposed != NONE, self.authkey != NONE)          # the library always passes both (the fall-backs are a stdlib inheritance: listed unreachable)
+        st.ghost['made'] = ()
+        unit = self
+
+        class LC(Obj):
+            def getitem(self_, e, s, idx, node):
+                return [('ok', s, PyTuple([z3.Const('Listener', Val), z3.Const('Client', Val)]))]
+        ex.globals['listener_client'] = LC(ex, 'listener_client')
+        ex.globals['get_server'] = Fn(lambda e, s, a, k, n: [('ok', s, z3.Const('server_or_None', Val))])
+        self.proxy = Rec(ex, 'proxy')
+
+        def proxy_type(e, s, a, k, n):
+            s = s.fork()
+            s.ghost['made'] = s.ghost['made'] + (([unbox_handle(e, x) for x in a], dict(k)),)
+            return [('ok', s, unit.proxy)]
+        self.ptype = Fn(proxy_type)
+        st.ghost['mpt'] = ()
+        return st
+
+    unreachable_ok = ('if server:', 'exposed = server.get_methods(None, token)', 'conn = _Client(token.address, authkey=authkey)', 'try:', 'authkey = current_process().authkey', 'exposed = tuple(exposed)', 'return _cache[(name, exposed)]', 'pass',
+                      'ProxyType = add_proxy_methods(*exposed)(type(name, (BaseProxy,), {}))', '_cache[(name, exposed)] = ProxyType', 'return ProxyType', 'conn.close()', 'exposed = dispatch(conn, None')
+
+    def on_call(self, ex, st, e, src):
+        if src == 'make_proxy_type':
+            # the nested function has its own unit (AutoProxy.<locals>.make_proxy_type): here only what it is asked for
+            def f(s, ak):
+                s = s.fork()
+                s.ghost['mpt'] = s.ghost['mpt'] + ([box(ex, x) for x in ak[0]],)
+                return [('ok', s, self.ptype)]
+            return ex.bind(ex.evargs(e, st), f)
+        return None
+
+    def on_binop(self, ex, st, op, a, b, node):
+        return [('ok', st, z3.Function('autoproxy_name', Val, Val)(box(ex, b)))]
+
+    def post(self, ex, outs):
+        for k, s, p in outs:
+            made, mpt = s.ghost['made'], s.ghost['mpt']
+            ok = k in ('normal', 'return') and len(made) == 1 and len(mpt) == 1 and len(mpt[0]) == 2 and len(made[0][0]) == 2 and made[0][0][0] is self.token
+            ex.oblige(s, 'exit: one proxy, of the class made for (name of the typeid, THIS exposed set), for the given token and serializer, with the caller\'s authkey and incref flag; marked automatic with its method set; returned',
+                      z3.And(mpt[0][1] == self.exposed, mpt[0][0] == z3.Function('autoproxy_name', Val, Val)(V.strv(self.token.get(s, 'typeid'))), box(ex, made[0][0][1]) == self.serializer,
+                             (box(ex, made[0][1]['authkey']) == self.authkey) if 'authkey' in made[0][1] else z3.BoolVal(False), (box(ex, made[0][1]['incref']) == V.boolv(self.incref)) if 'incref' in made[0][1] else z3.BoolVal(False),
+                             box(ex, self.proxy.get(s, '_isauto')) == V.boolv(z3.BoolVal(True)), box(ex, self.proxy.get(s, '_exposed_')) == self.exposed, z3.BoolVal(unbox_handle(ex, p) is self.proxy)) if ok else z3.BoolVal(False))
+
+
 class DecoratorNames(Unit):
     """Precondition of add_proxy_methods, checked at every call site in the module: the generated names must not shadow the
     attribute protocol or the private machinery that BaseProxy itself runs on (a generated __getattribute__ makes every
@@ -699,7 +761,7 @@ class C14Lemma(LemmaUnit):
 
 
 from contracts.c13 import ServerCreate, ServerCreateBadArgs, ServerCreateTyped, ServerCreateCallable, Managed, ManagedOutside      # noqa: E402  managed() values are live proxies to the hosted value itself
-UNITS = [ServerCallMethod, ServerCallMethodTyped, ServeClient, ProxyCallMethod, ProxyCallMethodInServer, GeneratedProxyMethod, MakeProxyType, DecoratorNames,
+UNITS = [ServerCallMethod, ServerCallMethodTyped, ServeClient, ProxyCallMethod, ProxyCallMethodInServer, GeneratedProxyMethod, MakeProxyType, AutoProxyUnit, DecoratorNames,
          NamespaceAttr, NamespaceSetAttr, NamespaceDelAttr] + PROXY_METHODS + [ServerCreate, ServerCreateBadArgs, ServerCreateTyped, ServerCreateCallable, Managed, ManagedOutside, C14Lemma]
 ALWAYS_RUN_SCENARIOS = True      # both batteries together take about 3 s; they are the bounded stand-in for operation sequences
 SCENARIOS = [('BaseProxy._callmethod', 'replay/scenarios/c14_in_server_error.py'), ('', 'replay/scenarios/c14_proxy_vs_direct.py')]
